@@ -175,11 +175,13 @@ def claim_str(cl):
 def run(ctx):
     ctx.level = "model_checking"
     helper = vlib.go_build_harness(ctx, "cmd/h-irsem")
-    workers = 6
+    workers = 4
     if ctx.quick:
         ngen, nfns, maxvec = 4, 12, 32
     else:
-        ngen, nfns, maxvec = 24, 14, 64
+        ngen, nfns, maxvec = 16, 14, 64
+    if os.environ.get("VERIF_CAP"):      # smoke-run of a tier with fewer generated programs
+        ngen = min(ngen, int(os.environ["VERIF_CAP"]))
 
     nps = []
     if ctx.replay:
@@ -248,7 +250,7 @@ def run(ctx):
             what = "%s %s: nilness claims %s but the IR execution returns nil-ness %s (o=1: nil; i=1: nil inside a non-nil interface)" % (
                 np.name, run["desc"], claim_str(run["claims"]), c["pat"])
             if confirmed:
-                if (np.name, run["fn"]) not in reported:
+                if (np.name, run["fn"]) not in reported and len(ctx.violations) < 10:
                     reported.add((np.name, run["fn"]))
                     ctx.violation(vlib.canon_key({"files": np.files, "fn": run["fn"], "kind": "unsound"}), what + "; the native run confirms it",
                                   {"kind": "c15", "program": np.name, "files": np.files, "fn": run["fn"], "vector": run["desc"],
